@@ -1,6 +1,7 @@
 package main
 
 import (
+	"os"
 	"bytes"
 	"encoding/json"
 	"fmt"
@@ -97,6 +98,12 @@ func dumpTerm(w *World, spec string) {
 		return
 	}
 	in := newInterp(w)
+	if op := os.Getenv("MAJ_OPAQUE"); op != "" {
+		in.opaqueMethods = map[string]bool{}
+		for _, m := range strings.Split(op, ",") {
+			in.opaqueMethods[m] = true
+		}
+	}
 	tm := strings.SplitN(parts[1], ".", 2)
 	var t *Term
 	var err error
